@@ -32,20 +32,22 @@ SplitLines(t) ==
 Code(line) == IF \A i \in 1..Len(line) : line[i] # HexSemi THEN line
               ELSE SubSeq(line, 1, (CHOOSE i \in 1..Len(line) : line[i] = HexSemi /\ \A j \in 1..(i-1) : line[j] # HexSemi) - 1)
 Digits(line) == SelectSeq(Code(line), LAMBDA s : s < 16)
-HasOther(line) == \E i \in 1..Len(Code(line)) : Code(line)[i] = HexOther
+HasOther(line) == \E c \in {Code(line)} : \E i \in 1..Len(c) : c[i] = HexOther
 
 Pairs(ds) == [i \in 1..(Len(ds) \div 2) |-> 16 * ds[2 * i - 1] + ds[2 * i]]
 
-HexRef(t) ==
-  LET lines == SplitLines(t)
-      all == Concat([i \in 1..Len(lines) |-> Digits(lines[i])]) IN
+\* (values bound by a quantifier are evaluated once; TLC re-evaluates LET definitions at every use, which is
+\* quadratic on texts of tens of thousands of symbols)
+HexRefOf(lines, all) ==
   IF \E i \in 1..Len(lines) : HasOther(lines[i]) THEN [class |-> "err", val |-> <<>>]
   ELSE IF Len(all) % 2 = 1 THEN [class |-> "err", val |-> <<>>]
   ELSE IF \A i \in 1..Len(lines) : Len(Digits(lines[i])) % 2 = 0 THEN [class |-> "val", val |-> Pairs(all)]
   ELSE [class |-> "may", val |-> Pairs(all)]
+HexRef(t) ==
+  CHOOSE r \in UNION {{HexRefOf(lines, all) : all \in {Concat([i \in 1..Len(lines) |-> Digits(lines[i])])}} : lines \in {SplitLines(t)}} : TRUE
 
 ExplainsHex(e) ==
-  LET r == HexRef(e.text) IN
+  \E r \in {HexRef(e.text)} :
   /\ e.st \in {"ok", "err"}
   /\ r.class = "val" => (e.st = "ok" /\ e.val = r.val)
   /\ r.class = "err" => e.st = "err"
